@@ -784,4 +784,128 @@ theorem sim_step {cw cw' : CWorld} {w : World} {a : CAct} (hs : Sim cw w) (ha : 
             exact ⟨_, rfl, ⟨this.1, this.2, hw, hf, rfl, rfl⟩⟩
       · simp [hcl] at h
 
+theorem sim_run {acts : List CAct} {cw cw' : CWorld} {w : World} (hs : Sim cw w) (ha : ∀ a ∈ acts, CActOk a)
+    (h : crun cw acts = some cw') : ∃ w', run cfgR w (acts.map encAct) = some w' ∧ Sim cw' w' := by
+  induction acts generalizing cw w with
+  | nil =>
+    simp only [crun, Option.some.injEq] at h
+    subst h
+    exact ⟨w, rfl, hs⟩
+  | cons a as ih =>
+    simp only [crun] at h
+    cases h1 : cstep cw a with
+    | none => rw [h1] at h; cases h
+    | some cw1 =>
+      rw [h1] at h
+      obtain ⟨w1, e1, hs1⟩ := sim_step hs (ha a (List.mem_cons_self ..)) h1
+      obtain ⟨w', e2, hs'⟩ := ih hs1 (fun b hb => ha b (List.mem_cons_of_mem _ hb)) h
+      exact ⟨w', by simp only [List.map_cons, run, e1]; exact e2, hs'⟩
+
+/-! ### the initial world, and the specification side -/
+
+open Classical in
+/-- an abstract content that represents a given concrete map (any one: the theorems quantify over
+    the initial content of C10's model) -/
+noncomputable def absC (m : MapSpec.Map) : Content :=
+  fun n => if h : ∃ pk, encK pk = n then (m h.choose).map encV else none
+
+theorem rep_absC (m : MapSpec.Map) : Rep m (absC m) := by
+  intro pk
+  unfold absC
+  have h : ∃ pk', encK pk' = encK pk := ⟨pk, rfl⟩
+  rw [dif_pos h, encK_inj h.choose_spec]
+
+noncomputable def absF : CFile → FileC
+  | .partial_ => .partial_
+  | .complete t => .complete (absC (TrieBuf.baseGet t))
+
+/-- a temp file left over by an earlier process is, if complete, a well-formed trie file -/
+def TmpOk (tmp : Option CFile) : Prop := ∀ t, tmp = some (.complete t) → Trie.SnapOk t
+
+theorem sim_init {t0 : List Leaf} (h0 : Trie.SnapOk t0) {tmp : Option CFile} (ht : TmpOk tmp) :
+    Sim (cinit t0 tmp) (init (absC (TrieBuf.baseGet t0)) (tmp.map absF)) := by
+  have hr : TRel t0 (absC (TrieBuf.baseGet t0)) := ⟨h0, rep_absC _⟩
+  refine ⟨(sim_fresh hr 0).1, (sim_fresh hr 0).2, True.intro, ?_, rfl, rfl⟩
+  intro n
+  cases n with
+  | path => exact hr
+  | tmp =>
+    show ORel FileRel tmp (tmp.map absF)
+    cases tmp with
+    | none => exact True.intro
+    | some f =>
+      cases f with
+      | partial_ => exact True.intro
+      | complete t => exact ⟨ht t rfl, rep_absC _⟩
+
+/-- the changes a concrete history makes, as calls of C09's specification `MapSpec` -/
+def opsOf (acts : List CAct) : List MapSpec.Op := acts.filterMap opOf
+
+theorem rep_set {m : MapSpec.Map} {c : Content} (h : Rep m c) (pk : MapSpec.PKey) (v : Option MapSpec.Val) :
+    Rep (m.set pk v) (setC c (encK pk) (v.map encV)) := by
+  intro pk'
+  unfold MapSpec.Map.set setC
+  by_cases e : pk' = pk
+  · subst e; simp
+  · simp only [encK_ne e, if_false, e]
+    exact h pk'
+
+/-- C10's map semantics of a change (`applyChange`) is C09's (`MapSpec.Map.apply`) -/
+theorem rep_applyChange {m : MapSpec.Map} {c : Content} (h : Rep m c) (a : CAct) :
+    Rep (match opOf a with | some op => m.apply op | none => m) (applyChange c (encAct a)) := by
+  cases a with
+  | add k t f tm =>
+    simp only [opOf, encAct, applyChange, MapSpec.Map.apply, MapSpec.Map.addOk]
+    rw [h (k, t)]
+    by_cases hn : (m (k, t)).isNone = true
+    · have h2 : (Option.map encV (m (k, t))).isSome = false := by
+        rw [Option.isNone_iff_eq_none.mp hn]; rfl
+      simp only [hn, h2, if_true, Bool.false_eq_true, if_false]
+      exact rep_set h (k, t) (some (f, tm.getD 0))
+    · have h2 : (Option.map encV (m (k, t))).isSome = true := by
+        cases hm : m (k, t) with
+        | none => rw [hm] at hn; exact absurd rfl hn
+        | some v => rfl
+      simp only [hn, h2, if_true]
+      exact h
+  | update k t f tm => exact rep_set h (k, t) (some (f, tm))
+  | remove k t => exact rep_set h (k, t) none
+  | flush => exact h
+  | reopen => exact h
+  | close => exact h
+  | d => exact h
+  | open_ => exact h
+  | w => exact h
+  | crash => exact h
+
+theorem rep_spec {m : MapSpec.Map} {c : Content} (h : Rep m c) (acts : List CAct) :
+    Rep (m.run (opsOf acts)) (spec c (acts.map encAct)) := by
+  induction acts generalizing m c with
+  | nil => exact h
+  | cons a as ih =>
+    have h1 := rep_applyChange h a
+    have h2 := ih h1
+    unfold opsOf at h2 ⊢
+    unfold spec at h2 ⊢
+    simp only [List.map_cons, List.foldl_cons]
+    cases ho : opOf a with
+    | none =>
+      rw [ho] at h2
+      simp only [List.filterMap_cons, ho]
+      exact h2
+    | some op =>
+      rw [ho] at h2
+      simp only [List.filterMap_cons, ho]
+      exact h2
+
+/-- a state freshly opened on the file `t` denotes what the file holds -/
+theorem abs_freshSt (t : List Leaf) : TrieBuf.abs (freshSt t) = TrieBuf.baseGet t := by
+  funext k
+  exact TrieBuf.absOver_empty t rfl rfl k
+
+theorem inv_freshSt {t : List Leaf} (h : Trie.SnapOk t) : TrieBuf.Inv (freshSt t) :=
+  TrieBuf.inv_of_empty h rfl rfl rfl rfl
+
+theorem settled_freshSt (t : List Leaf) : TrieBuf.Settled (freshSt t) := ⟨rfl, rfl⟩
+
 end Chewing.DictLink
